@@ -85,16 +85,24 @@ def chain(index, rep, db):
     # 2. helper: slot i of the result comes from parameter i
     h = index.func(EXT, "Extractor.extract_to_humans_feed_and_biofuel")
     params = [a.arg for a in h.args.args][1:]
-    binds = {}
-    for st in h.body:
-        if isinstance(st, ast.Assign) and isinstance(st.value, ast.Call) and dotted(st.value.func) == "self.extract_generic_results":
-            binds[norm_src(st.targets[0])] = [norm_src(a) for a in st.value.args]
-    ret = [r for r in h.body if isinstance(r, ast.Return)]
-    ok = bool(ret) and isinstance(ret[-1].value, ast.Tuple) and len(ret[-1].value.elts) == 3
+    it_h = Interp()
+
+    def hook_h(interp, d, a, kw, node):
+        if d == "self.extract_generic_results":
+            return tuple(["generic"] + list(a))
+        return NotImplemented
+
+    it_h.call_hook = hook_h
+    try:
+        res_h = it_h.call_function(h, [Path((p_,)) for p_ in params], {}, Obj(None, {}, "self"))
+    except (Unsupported, Abort) as e:
+        raise AnalysisError(f"extract_to_humans_feed_and_biofuel outside the analysed fragment: {e}")
+    items_h = res_h.items if isinstance(res_h, PList) else (list(res_h) if isinstance(res_h, tuple) else None)
+    ok = items_h is not None and len(items_h) == 3 and len(params) >= 6
     if ok:
-        for i, e in enumerate(ret[-1].value.elts):
-            b = binds.get(norm_src(e))
-            ok = ok and b is not None and b[0] == params[i] and b[1:4] == params[3:6]
+        for i, e_ in enumerate(items_h):
+            ok = ok and isinstance(e_, tuple) and len(e_) >= 5 and e_[0] == "generic" and isinstance(e_[1], Path) and e_[1].parts == (params[i],) and \
+                [x.parts[0] if isinstance(x, Path) else None for x in e_[2:5]] == params[3:6]
     rep.check(ok, rule, "helper:slot-i-from-parameter-i", "extract_to_humans_feed_and_biofuel does not return (f(to_humans), f(feed), f(biofuel)) "
               "built with the same three ratios", loc=loc(EXT, h))
     # 3. the remaining five foods
@@ -315,8 +323,31 @@ def coef(index, rep, db):
             ok = False
     rets = [norm_src(r.value) for r in walk_no_nested(tml) if isinstance(r, ast.Return)]
     rets = sorted(rets, key=lambda r: r.replace(" ", "").startswith("np.array([0]*len("), reverse=True)
-    rep.check(ok and out_name is not None and rets and rets[-1] in (f"np.array({out_name})", f"np.asarray({out_name})", out_name) and all(
-        r == rets[-1] or r.replace(" ", "").startswith("np.array([0]*len(") for r in rets), rule, "to_monthly_list:value[m] = variables[m].varValue x conversion",
+    if loops:
+        okfinal = ok and out_name is not None and rets and rets[-1] in (f"np.array({out_name})", f"np.asarray({out_name})", out_name) and all(
+            r == rets[-1] or r.replace(" ", "").startswith("np.array([0]*len(") for r in rets)
+    else:
+        # written as a comprehension over the months: evaluate the last return expression with a generic month index
+        from .symx import RLE, EIDX, NSYM, PDict as _PD
+        from .nphooks import np_hook
+        pv, pc = [a.arg for a in tml.args.args if a.arg != "self"][:2]
+        last = [r for r in tml.body if isinstance(r, ast.Return)]
+        okfinal = False
+        if last:
+            it6 = Interp()
+            it6.call_hook = np_hook
+            env6 = {pv: Opaque("variables"), pc: Rat.atom(("conv",)), "self": Obj(None, {"constants": _PD({"NMONTHS": Rat.atom(NSYM)})}, "self")}
+            try:
+                v6 = it6.eval(last[-1].value, env6)
+                segs6 = v6.segs if hasattr(v6, "segs") else ([(v6.fill, v6.length)] if isinstance(v6, RLE) else None)
+                idx = "<" + ",".join(EIDX) + ">" if isinstance(EIDX, tuple) else str(EIDX)
+                fill6 = it6.to_rat(segs6[0][0]) if segs6 and len(segs6) == 1 else None
+                vv = [a_ for a_ in (fill6.atoms() if fill6 is not None else []) if isinstance(a_, tuple) and a_[0] == "varValue"
+                      and a_[1].startswith("variables[") and "elem-index" in a_[1]]
+                okfinal = fill6 is not None and it6.to_rat(segs6[0][1]) == Rat.atom(NSYM) and len(vv) == 1 and fill6 == Rat.atom(vv[0]) * Rat.atom(("conv",))
+            except Unsupported:
+                okfinal = False
+    rep.check(okfinal, rule, "to_monthly_list:value[m] = variables[m].varValue x conversion",
               "to_monthly_list does not return variables[m].varValue x conversion for every month m", loc=loc(EXT, tml))
     # billions fed -> percent fed is x 100*KCALS_MONTHLY/BKN  (C10 table identity), with the optimiser's BKN/KCALS_MONTHLY
     from .c10 import build_conversions, tables
@@ -500,22 +531,35 @@ def _coeff(expr, atom):
 def csv_rule(index, rep):
     rule = "C04.CSV"
     fn = index.func(INT, "Interpreter.interpret_results")
-    dicts = [s for s in walk_no_nested(fn) if isinstance(s, ast.Assign) and isinstance(s.value, ast.Dict) and len(s.value.keys) >= 8]
-    if len(dicts) != 1:
-        raise AnalysisError("interpret_results: CSV dictionary not found")
-    d = dicts[0]
-    cols = {}
-    for k, v in zip(d.value.keys, d.value.values):
-        cols[str_const(k)] = v
-    rep.check(sorted(cols) == sorted(CSV_COLS), rule, "columns", f"CSV columns {sorted(set(cols) ^ set(CSV_COLS))} differ from the ten per-food series",
+    # what is handed to pd.DataFrame(...): evaluated (dict literal, comprehension over the food names, ...) with `self` opaque
+    inl = Inliner(fn)
+    frames = [c for c in walk_no_nested(fn) if isinstance(c, ast.Call) and dotted(c.func) in ("pd.DataFrame", "pandas.DataFrame") and c.args]
+    if len(frames) != 1:
+        raise AnalysisError("interpret_results: the pd.DataFrame(...) of the per-food table was not found")
+    it_c = Interp()
+
+    def hook_c(interp, dn, a, kw, node):
+        if dn in ("np.array", "np.asarray") and len(a) == 1 and not kw:
+            return a[0]
+        return NotImplemented
+
+    it_c.call_hook = hook_c
+    try:
+        table = it_c.eval(inl.expr(frames[0].args[0]), {"self": Path(("self",))})
+    except Unsupported as e:
+        raise AnalysisError(f"interpret_results: the per-food table is built outside the analysed fragment: {e}")
+    if not isinstance(table, PDict):
+        raise AnalysisError("interpret_results: the per-food table is not a dictionary of columns")
+    cols = {k: v for k, v in table.d.items()}
+    d = frames[0]
+    rep.check(sorted(map(str, cols)) == sorted(CSV_COLS), rule, "columns", f"CSV columns {sorted(set(map(str, cols)) ^ set(CSV_COLS))} differ from the ten per-food series",
               loc=loc(INT, d))
     for name, v in cols.items():
-        want = f"np.array(self.{name}_kcals_equivalent.kcals)"
-        rep.check(norm_src(v) == want, rule, f"column:{name}",
-                  f"CSV column {name} is {norm_src(v)[:70]!r}, not the unmodified kcal-equivalent series of {name} ({want})", loc=loc(INT, v))
+        want = ("self", f"{name}_kcals_equivalent", "kcals")
+        rep.check(isinstance(v, Path) and v.parts == want and v.idx is None, rule, f"column:{name}",
+                  f"CSV column {name} is not the unmodified kcal-equivalent series of {name} (np.array(self.{name}_kcals_equivalent.kcals))", loc=loc(INT, d))
     # written through pd.DataFrame(dict).to_csv(path) with no formatting arguments
-    name = norm_src(d.targets[0])
-    dfs = [s for s in walk_no_nested(fn) if isinstance(s, ast.Assign) and norm_src(s.value) == f"pd.DataFrame({name})"]
+    dfs = [s for s in walk_no_nested(fn) if isinstance(s, ast.Assign) and s.value is frames[0]]
     writes = [c for c in walk_no_nested(fn) if isinstance(c, ast.Call) and isinstance(c.func, ast.Attribute) and c.func.attr == "to_csv"]
     ok = len(dfs) == 1 and len(writes) == 1 and norm_src(writes[0].func.value) == norm_src(dfs[0].targets[0]) and \
         not [k for k in writes[0].keywords if k.arg in ("float_format", "columns", "decimal")]
